@@ -81,31 +81,47 @@ class Runner:
                 gi = next(i for i, sl in enumerate(opt._per_group_state_lists) if sl is rec["state_lists"])
                 self.flags[gi] = {"refresh": bool(rec["perform_amortized_computation"]),
                                   "usegraft": bool(rec["use_grafting_method"])}
-                return inner(*a, **kw)
+                self._current_group = gi
+                try:
+                    return inner(*a, **kw)
+                finally:
+                    self._current_group = None
             opt._per_group_step = wrapped
         except Exception:
             self.flags = None
 
     def resolve_factor(self, A, est):
-        """Which (group, block, factor) is the matrix routine being called for?  By identity (SOAP passes the state
-        tensor) or by proportionality to a stored factor matrix (Shampoo passes factor / bias_correction)."""
-        for gi in range(self.ng):
-            for (b, name), t in self._tensors[gi].items():
-                if not name.startswith("fac"):
+        """Which (group, block, factor) is the matrix routine being called for?  By identity (SOAP passes the state tensor) or by
+        proportionality to a stored factor matrix (Shampoo passes factor / bias_correction).  Ambiguity (equal or all-zero factors of
+        the same shape) is resolved by taking the first matching candidate, in list order, that has not been called yet in this step."""
+        a = A.detach().to(F64)
+        a_zero = not bool(a.any())
+        cur = getattr(self, "_current_group", None)
+        for gi in ([cur] if cur is not None else range(self.ng)):
+            for (b, name), t in sorted(self._tensors[gi].items(), key=lambda kv: (kv[0][0], kv[0][1])):
+                if not name.startswith("fac") or (gi, b, int(name[3:])) in self._used:
                     continue
+                if self._active is not None and b not in self._active[gi]:
+                    continue            # the routine is only ever called for blocks whose parameter has a gradient
                 tt = t.to_local() if hasattr(t, "to_local") else t
                 if tt.shape != A.shape:
                     continue
+                key = (gi, b, int(name[3:]))
                 if tt.data_ptr() == A.data_ptr():
-                    return (gi, b, int(name[3:]))
-                a, f = A.detach().to(F64), tt.detach().to(F64)
+                    self._used.add(key)
+                    return key
+                f = tt.detach().to(F64)
+                if a_zero or not bool(f.any()):
+                    if a_zero and not bool(f.any()):
+                        self._used.add(key)
+                        return key
+                    continue
                 i = int(f.abs().argmax())
                 fa, aa = float(f.reshape(-1)[i]), float(a.reshape(-1)[i])
                 if fa != 0.0 and aa != 0.0 and math.isfinite(fa) and math.isfinite(aa):
                     if torch.allclose(a * (fa / aa), f, rtol=1e-5, atol=0.0, equal_nan=True):
-                        return (gi, b, int(name[3:]))
-                elif not (math.isfinite(fa) and math.isfinite(aa)):
-                    continue
+                        self._used.add(key)
+                        return key
         return None
 
     def concrete_hy(self, gi):
@@ -153,6 +169,8 @@ class Runner:
         if self.flags is not None:
             self.flags.clear()
         calls = []
+        self._used = set()
+        self._active = [{b + 1 for b, m in enumerate(self.meta[gi]) if present[gi][m["param"]]} for gi in range(self.ng)]
 
         def decide(name, A, est):
             who = self.resolve_factor(A, est)
@@ -204,7 +222,11 @@ class Runner:
             ob = {"has": True, "reached": True, "step": sv, "stepped": sv != steps_before[gi],
                   "raised": raised if gi == raising_group else "none",
                   "calls": [[b, k, o] for (g2, b, k, o) in calls if g2 == gi],
-                  "rootAt": [list(r) for r in self.root_at[gi]], "active": active}
+                  "active": active}
+            if draw.get("grad_mode", "dense") == "dense":
+                # root ages are observed through changed bits, which is only sound for generic gradients (a root recomputed from an
+                # unchanged factor is bitwise the same); otherwise the field is left out and the call list carries the information
+                ob["rootAt"] = [list(r) for r in self.root_at[gi]]
             if self.flags is not None:
                 ob["stepped"] = gi in self.flags
                 if gi in self.flags:
@@ -222,7 +244,8 @@ class Runner:
                     mism.append((f"g{gi+1}.frame.b{b}.{name}", "bitwise unchanged", "changed"))
                 if b in act and ob["raised"] != "none" and name in ("param", "mom", "filt") and changed:
                     mism.append((f"g{gi+1}.changed_on_raise.b{b}.{name}", "unchanged", "changed"))
-                if b in act and ob["raised"] == "none" and ob["stepped"] and not changed and not self.poisoned:
+                if b in act and ob["raised"] == "none" and ob["stepped"] and not changed and not self.poisoned \
+                        and draw.get("grad_mode", "dense") == "dense":
                     hyc = self.concrete_hy(gi)
                     must = (name.startswith("fac") or name in ("graft", "cev")
                             or (name == "filt" and hyc["beta1"] != 0.0))   # momentum may legitimately stay 0 (zero direction)
